@@ -41,9 +41,12 @@ def gen_config(rng, color_format, allow_transform=True, reuse=None):
 def gen_sources(rng, n=None, solid_only=False, allow_groups=True, allow_special=True, first_cp=0x1F600, var_opaque=False, stress=False, share=True, viewbox=None):
     n = n or rng.randint(1, 5)
     pool = [] if share else None
+    gpool = [] if share else None
+    if viewbox is None and share and rng.random() < 0.5:
+        viewbox = svggen.random_viewbox(rng)  # like a real emoji set: one viewBox for all sources (gradients can recur)
     docs, srcs = [], []
     for i in range(n):
-        doc = svggen.gen_doc(rng, pool, solid_only=solid_only, allow_groups=allow_groups, allow_special=allow_special, var_opaque=var_opaque, stress=stress, viewbox=viewbox(rng) if callable(viewbox) else viewbox)
+        doc = svggen.gen_doc(rng, pool, solid_only=solid_only, allow_groups=allow_groups, allow_special=allow_special, var_opaque=var_opaque, stress=stress, viewbox=viewbox(rng) if callable(viewbox) else viewbox, grad_pool=gpool)
         cps = (first_cp + i,)
         docs.append(doc)
         srcs.append((build.filename_for(cps, rng.choice([0, 1])), doc.to_svg(), cps))
@@ -101,7 +104,24 @@ def check_colr_glyphs(font, cfg, srcs, picos, problems_out, palette_check=True):
         base, extra = eps_for(cfg, vb)
         scale_user = picture.anorm(user_affine(cfg))
         probs += picture.compare_pictures(exp, act, eps=base * max(1.0, scale_user), extra_eps=extra * max(1.0, scale_user), palette_check=palette_check)
+        probs += clip_problems(font, g, act, 2.5 * max(1.0, scale_user))
         n += 1
         if probs:
             problems_out.append(dict(source=fn, glyph=g, problems=probs[:5], pico=pico))
     return n
+
+
+def clip_problems(font, g, act, tol):
+    """what a renderer shows is the paint clipped to the glyph's ClipBox: the box must not cut it"""
+    colr = font["COLR"]
+    if colr.version == 0 or not getattr(colr.table, "ClipList", None):
+        return []
+    box = colr.table.ClipList.clips.get(g)
+    pts = [p for it, _ in picture.flatten(act) for poly in it[1] for p in poly]
+    if box is None or not pts:
+        return []
+    xs, ys = [p[0] for p in pts], [p[1] for p in pts]
+    cut = max(box.xMin - min(xs), box.yMin - min(ys), max(xs) - box.xMax, max(ys) - box.yMax)
+    if cut > tol:
+        return [f"the ClipBox ({box.xMin}, {box.yMin}, {box.xMax}, {box.yMax}) cuts {cut:.1f} units off the painted outlines ({min(xs):.1f}, {min(ys):.1f}, {max(xs):.1f}, {max(ys):.1f})"]
+    return []
